@@ -354,75 +354,8 @@ func convertersHandOutWhatTheyTakeBack(c *core.Ctx) {
 		toOf[core.NamedOf(f.Signature.Recv().Type())] = f
 	}
 	objPkg := p.Pkg("object").Types
-	var accepted func(fn *ssa.Function, pi int, d int, out map[string]bool)
-	accepted = func(fn *ssa.Function, pi int, d int, out map[string]bool) {
-		if fn.Blocks == nil || pi >= len(fn.Params) {
-			return
-		}
-		par := fn.Params[pi]
-		vals := map[ssa.Value]bool{par: true}
-		// the parameter may be re-bound by a type switch (x := x.(type))
-		for _, b := range fn.Blocks {
-			for _, in := range b.Instrs {
-				switch x := in.(type) {
-				case *ssa.TypeAssert:
-					if vals[x.X] {
-						out[shortType(x.AssertedType)] = true
-					}
-				case ssa.CallInstruction:
-					cal := x.Common().StaticCallee()
-					if cal == nil || cal.Pkg == nil || cal.Pkg.Pkg != objPkg || d >= 2 {
-						continue
-					}
-					for ai, a := range x.Common().Args {
-						if vals[a] {
-							accepted(cal, ai, d+1, out)
-						}
-					}
-				}
-			}
-		}
-	}
-	var produced func(fn *ssa.Function, d int, out map[string]ssa.Instruction)
-	produced = func(fn *ssa.Function, d int, out map[string]ssa.Instruction) {
-		if fn.Blocks == nil {
-			return
-		}
-		for _, b := range fn.Blocks {
-			ret, ok := b.Instrs[len(b.Instrs)-1].(*ssa.Return)
-			if !ok || len(ret.Results) == 0 {
-				continue
-			}
-			for _, o := range originsThroughInterfaces(spilledResult(b, ret.Results[0])) {
-				call, ok := o.(*ssa.Call)
-				if !ok {
-					if ex, isEx := o.(*ssa.Extract); isEx && ex.Index == 0 {
-						call, ok = ex.Tuple.(*ssa.Call)
-					}
-				}
-				if !ok {
-					continue
-				}
-				cal := call.Call.StaticCallee()
-				if cal == nil || cal.Pkg == nil || cal.Pkg.Pkg != objPkg {
-					continue
-				}
-				rt := cal.Signature.Results()
-				if rt.Len() == 0 {
-					continue
-				}
-				if strings.HasPrefix(cal.Name(), "New") && cal.Signature.Recv() == nil {
-					if _, isPtr := rt.At(0).Type().(*types.Pointer); isPtr {
-						out[shortType(rt.At(0).Type())] = call
-						continue
-					}
-				}
-				if cal.Signature.Recv() == nil && d < 2 {
-					produced(cal, d+1, out)
-				}
-			}
-		}
-	}
+	accepted := func(fn *ssa.Function, pi int, d int, out map[string]bool) { acceptedKinds(objPkg, fn, pi, d, out) }
+	produced := func(fn *ssa.Function, d int, out map[string]ssa.Instruction) { producedKinds(objPkg, fn, d, out) }
 	n := 0
 	for _, f := range from {
 		nt := core.NamedOf(f.Signature.Recv().Type())
@@ -1450,3 +1383,944 @@ func returnsOnlyCleanedPaths(p *core.Program, fn *ssa.Function) (bool, string) {
 }
 
 var wrapsAComputingPackage = map[string]bool{"strings": true, "strconv": true, "math": true, "bytes": true, "base64": true, "filepath": true, "regexp": true}
+
+// ---------------------------------------------------------------------------
+// theConfigurationIsAppliedAsAWhole: a risor.Config describes the whole
+// environment of an evaluation: its globals, importer, OS, and whether threads
+// are allowed.  The VM keeps what options set until other options set it
+// again, so the options that a Config produces for the VM cover every field of
+// the environment on every path, also where the Config has nothing to say
+// (no globals, no importer, no concurrency): otherwise an evaluation on a VM
+// that was used before runs with what the earlier Config left there
+// (WithoutDefaultGlobals() after a default evaluation still finds os; import
+// works without an importer; spawn works without WithConcurrency).
+var notPartOfTheEnvironment = map[string]string{
+	"ip":           "the position in the code, set by WithInstructionOffset for a REPL-style resume; not part of a Config",
+	"globalsGiven": "scratch flag of one application of options",
+}
+
+func theConfigurationIsAppliedAsAWhole(c *core.Ctx) {
+	p := c.P
+	vmT := vmType(p)
+	st, _ := vmT.Underlying().(*types.Struct)
+	optT := core.MustType(p.Pkg("vm"), "Option")
+	// option constructors, by the field their closure writes
+	ctorWrites := map[*ssa.Function]map[int]bool{}
+	fields := map[int]bool{}
+	for _, fn := range repoFns(p, "vm") {
+		if fn.Parent() == nil || fn.Signature.Params().Len() != 1 || core.NamedOf(fn.Signature.Params().At(0).Type()) != vmT {
+			continue
+		}
+		par := fn.Parent()
+		if par.Signature.Results().Len() != 1 || core.NamedOf(par.Signature.Results().At(0).Type()) != optT {
+			continue
+		}
+		for _, b := range fn.Blocks {
+			for _, in := range b.Instrs {
+				var fa *ssa.FieldAddr
+				switch x := in.(type) {
+				case *ssa.Store:
+					fa, _ = x.Addr.(*ssa.FieldAddr)
+				case *ssa.MapUpdate:
+					if u, ok := x.Map.(*ssa.UnOp); ok {
+						fa, _ = u.X.(*ssa.FieldAddr)
+					}
+				}
+				if fa == nil || core.NamedOf(fa.X.Type()) != vmT {
+					continue
+				}
+				if _, skip := notPartOfTheEnvironment[st.Field(fa.Field).Name()]; skip {
+					continue
+				}
+				if ctorWrites[par] == nil {
+					ctorWrites[par] = map[int]bool{}
+				}
+				ctorWrites[par][fa.Field] = true
+				fields[fa.Field] = true
+			}
+		}
+	}
+	if len(fields) < 3 {
+		core.Undecidedf("only %d environment fields are written by VM options", len(fields))
+	}
+	var producer *ssa.Function
+	for _, fn := range repoFns(p, ".") {
+		if fn.Name() == "VMOpts" && fn.Signature.Recv() != nil {
+			producer = fn
+		}
+	}
+	if producer == nil {
+		core.Undecidedf("Config.VMOpts not found")
+	}
+	var fl []int
+	for f := range fields {
+		fl = append(fl, f)
+	}
+	sort.Ints(fl)
+	for _, f := range fl {
+		// blocks that call a constructor writing f
+		with := map[*ssa.BasicBlock]bool{}
+		for _, b := range producer.Blocks {
+			for _, in := range b.Instrs {
+				if ci, ok := in.(ssa.CallInstruction); ok {
+					if cal := ci.Common().StaticCallee(); cal != nil && ctorWrites[cal][f] {
+						with[b] = true
+					}
+				}
+			}
+		}
+		// a path from the entry to a return that avoids them all
+		avoid := false
+		seen := map[*ssa.BasicBlock]bool{}
+		var walk func(b *ssa.BasicBlock)
+		walk = func(b *ssa.BasicBlock) {
+			if seen[b] || with[b] {
+				return
+			}
+			seen[b] = true
+			if _, ok := b.Instrs[len(b.Instrs)-1].(*ssa.Return); ok {
+				avoid = true
+			}
+			for _, s := range b.Succs {
+				walk(s)
+			}
+		}
+		walk(producer.Blocks[0])
+		name := st.Field(f).Name()
+		c.Check(!avoid, "risor.Config.VMOpts|"+name+"|set-on-every-path", p.Pos(producer.Pos()),
+			"Config.VMOpts"+ife(!avoid, " produces an option that sets VirtualMachine."+name+" whatever the Config says about it", " can return without an option that sets VirtualMachine."+name+": a VM that was used before keeps what the earlier Config put there (risor.Eval(.., WithVM(m), WithoutDefaultGlobals()) after a default evaluation on m still reaches os; import works although this Config has no importer)"))
+	}
+	c.Stat("environment_fields", len(fl))
+}
+
+// ---------------------------------------------------------------------------
+// theVMInstallsItsOwnContextValuesOnEveryPath: the context that builtins see
+// carries the functions through which they reach "their" VM (call a function,
+// spawn a thread, clone and call) and the OS.  A VM may run inside a builtin of
+// another VM, on that VM's context; whatever it does not overwrite it
+// inherits.  The function that prepares the context therefore sets each of
+// these values on every path, also where the VM has nothing to offer (no
+// concurrency): an evaluation that was not given WithConcurrency could spawn
+// all the same, on the outer VM and under the outer VM's OS.
+func theVMInstallsItsOwnContextValuesOnEveryPath(c *core.Ctx) {
+	p := c.P
+	n := 0
+	for _, fn := range repoFns(p, "vm") {
+		// setters called in this function: func(ctx, x) context.Context of object or os
+		setters := map[*ssa.Function][]*ssa.BasicBlock{}
+		for _, b := range fn.Blocks {
+			for _, in := range b.Instrs {
+				call, ok := in.(*ssa.Call)
+				if !ok {
+					continue
+				}
+				cal := call.Call.StaticCallee()
+				if cal == nil || !core.RepoFunc(cal) || cal.Signature.Recv() != nil || cal.Signature.Params().Len() != 2 || cal.Signature.Results().Len() != 1 {
+					continue
+				}
+				if !core.IsNamed(cal.Signature.Params().At(0).Type(), "context", "Context") || !core.IsNamed(cal.Signature.Results().At(0).Type(), "context", "Context") {
+					continue
+				}
+				if !strings.HasPrefix(cal.Name(), "With") {
+					continue
+				}
+				setters[cal] = append(setters[cal], b)
+			}
+		}
+		if len(setters) < 3 {
+			continue
+		}
+		var cs []*ssa.Function
+		for s := range setters {
+			cs = append(cs, s)
+		}
+		sort.Slice(cs, func(i, j int) bool { return cs[i].Name() < cs[j].Name() })
+		for _, s := range cs {
+			with := map[*ssa.BasicBlock]bool{}
+			for _, b := range setters[s] {
+				with[b] = true
+			}
+			avoid := false
+			seen := map[*ssa.BasicBlock]bool{}
+			var walk func(b *ssa.BasicBlock)
+			walk = func(b *ssa.BasicBlock) {
+				if seen[b] || with[b] {
+					return
+				}
+				seen[b] = true
+				if _, ok := b.Instrs[len(b.Instrs)-1].(*ssa.Return); ok {
+					avoid = true
+				}
+				for _, sc := range b.Succs {
+					walk(sc)
+				}
+			}
+			walk(fn.Blocks[0])
+			n++
+			c.Check(!avoid, core.SSAName(fn)+"|"+s.Name()+"|on-every-path", p.Pos(fn.Pos()),
+				fn.Name()+" prepares the context for builtins"+ife(!avoid, " and calls "+s.Name()+" on every path", "; "+s.Name()+" is called on some paths only: on the others the context keeps the value of whichever VM prepared it before (an evaluation inside a builtin of another VM spawns threads on that VM, under that VM's OS, although it was not given WithConcurrency itself)"))
+		}
+	}
+	if n < 3 {
+		core.Undecidedf("no function of package vm installs three or more context values")
+	}
+	c.Stat("context_values_installed", n)
+}
+
+// acceptedKinds: the types to which fn asserts its parameter pi (itself or in
+// helpers of package object that it hands the parameter to).
+func acceptedKinds(objPkg *types.Package, fn *ssa.Function, pi int, d int, out map[string]bool) {
+	if fn.Blocks == nil || pi >= len(fn.Params) {
+		return
+	}
+	par := fn.Params[pi]
+	vals := map[ssa.Value]bool{par: true}
+	// the parameter may be re-bound by a type switch (x := x.(type))
+	for _, b := range fn.Blocks {
+		for _, in := range b.Instrs {
+			switch x := in.(type) {
+			case *ssa.TypeAssert:
+				if vals[x.X] {
+					out[shortType(x.AssertedType)] = true
+				}
+			case ssa.CallInstruction:
+				cal := x.Common().StaticCallee()
+				if cal == nil || cal.Pkg == nil || cal.Pkg.Pkg != objPkg || d >= 2 {
+					continue
+				}
+				for ai, a := range x.Common().Args {
+					if vals[a] {
+						acceptedKinds(objPkg, cal, ai, d+1, out)
+					}
+				}
+			}
+		}
+	}
+}
+
+// producedKinds: the object types that fn can return as its first result,
+// by the constructors (New...) whose results reach a return.
+func producedKinds(objPkg *types.Package, fn *ssa.Function, d int, out map[string]ssa.Instruction) {
+	if fn.Blocks == nil {
+		return
+	}
+	for _, b := range fn.Blocks {
+		ret, ok := b.Instrs[len(b.Instrs)-1].(*ssa.Return)
+		if !ok || len(ret.Results) == 0 {
+			continue
+		}
+		for _, o := range originsThroughInterfaces(spilledResult(b, ret.Results[0])) {
+			call, ok := o.(*ssa.Call)
+			if !ok {
+				if ex, isEx := o.(*ssa.Extract); isEx && ex.Index == 0 {
+					call, ok = ex.Tuple.(*ssa.Call)
+				}
+			}
+			if !ok {
+				continue
+			}
+			cal := call.Call.StaticCallee()
+			if cal == nil || cal.Pkg == nil || cal.Pkg.Pkg != objPkg {
+				continue
+			}
+			rt := cal.Signature.Results()
+			if rt.Len() == 0 {
+				continue
+			}
+			if strings.HasPrefix(cal.Name(), "New") && cal.Signature.Recv() == nil {
+				if _, isPtr := rt.At(0).Type().(*types.Pointer); isPtr {
+					out[shortType(rt.At(0).Type())] = call
+					continue
+				}
+			}
+			if cal.Signature.Recv() == nil && d < 2 {
+				producedKinds(objPkg, cal, d+1, out)
+			}
+		}
+	}
+}
+
+// ---------------------------------------------------------------------------
+// membershipAcceptsWhatIterationYields: `x in c` agrees with iterating over c
+// and comparing.  A container whose Contains looks at the kind of its argument
+// (rather than comparing it with every item through Equals) accepts at least
+// the kind of object that its own iterator hands out: a byte_slice yields
+// bytes, so a byte can be a member.  Contains that does not know the kind its
+// iterator yields answers false for every item of the container.
+func membershipAcceptsWhatIterationYields(c *core.Ctx) {
+	p := c.P
+	op := p.Pkg("object")
+	objPkg := op.Types
+	convFrom := map[*types.Named]*ssa.Function{}
+	_, from := converterMethods(p)
+	for _, f := range from {
+		convFrom[core.NamedOf(f.Signature.Recv().Type())] = f
+	}
+	n := 0
+	byType := map[*types.Named]map[string]*ssa.Function{}
+	for _, fn := range repoFns(p, "object") {
+		if fn.Signature.Recv() == nil || fn.Parent() != nil {
+			continue
+		}
+		if fn.Name() != "Contains" && fn.Name() != "Iter" {
+			continue
+		}
+		nt := core.NamedOf(fn.Signature.Recv().Type())
+		if byType[nt] == nil {
+			byType[nt] = map[string]*ssa.Function{}
+		}
+		byType[nt][fn.Name()] = fn
+	}
+	var nts []*types.Named
+	for nt, ms := range byType {
+		if ms["Contains"] != nil && ms["Iter"] != nil {
+			nts = append(nts, nt)
+		}
+	}
+	sort.Slice(nts, func(i, j int) bool { return nts[i].Obj().Name() < nts[j].Obj().Name() })
+	for _, nt := range nts {
+		acc := map[string]bool{}
+		acceptedKinds(objPkg, byType[nt]["Contains"], 1, 0, acc)
+		if len(acc) == 0 {
+			continue // compares with every item
+		}
+		// what the iterator yields: the converter the iterator is given, or the constructors in its Next
+		yields := map[string]ssa.Instruction{}
+		it := byType[nt]["Iter"]
+		for _, b := range it.Blocks {
+			for _, in := range b.Instrs {
+				switch x := in.(type) {
+				case *ssa.MakeInterface:
+					if cn := core.NamedOf(x.X.Type()); cn != nil && convFrom[cn] != nil {
+						producedKinds(objPkg, convFrom[cn], 0, yields)
+					}
+				case *ssa.Call:
+					if cal := x.Call.StaticCallee(); cal != nil && cal.Pkg != nil && cal.Pkg.Pkg == objPkg && cal.Signature.Results().Len() > 0 {
+						if itn := core.NamedOf(cal.Signature.Results().At(0).Type()); itn != nil {
+							for _, m := range core.Methods(itn) {
+								if m.Name() == "Next" {
+									if sf := p.SSAFunc(m); sf != nil {
+										producedKinds(objPkg, sf, 0, yields)
+									}
+								}
+							}
+						}
+					}
+				}
+			}
+		}
+		var ks []string
+		for k := range yields {
+			ks = append(ks, k)
+		}
+		sort.Strings(ks)
+		for _, k := range ks {
+			n++
+			var accs []string
+			for a := range acc {
+				accs = append(accs, a)
+			}
+			sort.Strings(accs)
+			c.Check(acc[k], "object."+nt.Obj().Name()+"|yields:"+k+"|accepted-by-Contains", p.Pos(byType[nt]["Contains"].Pos()),
+				"iterating over a "+nt.Obj().Name()+" yields "+k+ife(acc[k], ", which its Contains accepts", ", which its Contains does not accept (it takes "+strings.Join(accs, ", ")+"): `x in c` is false for every x that `for x in c` produces (byte(97) in byte_slice(\"abc\") is false)"))
+		}
+	}
+	if n < 2 {
+		core.Undecidedf("only %d (container, yielded kind) pairs found", n)
+	}
+	c.Stat("container_yield_kinds", n)
+}
+
+// ---------------------------------------------------------------------------
+// verdictsAboutAModuleNameTheModule: importing a module runs its code, which
+// may import other modules; an error that says "the importer has no such
+// module" can therefore come from any depth.  Where the VM looks for such an
+// error with errors.As in order to try something else (the name may be an
+// attribute of the parent module), it also looks at which module the error is
+// about: without that, a module that exists and fails because something it
+// imports is missing is taken to be missing itself, its failure is swallowed,
+// and the attribute of the same name is handed out instead.
+func verdictsAboutAModuleNameTheModule(c *core.Ctx) {
+	p := c.P
+	cg := p.CallGraph()
+	n := 0
+	for _, fn := range repoFns(p, "vm") {
+		k := 0
+		for _, b := range fn.Blocks {
+			for _, in := range b.Instrs {
+				call, ok := in.(*ssa.Call)
+				if !ok {
+					continue
+				}
+				cal := call.Call.StaticCallee()
+				if cal == nil || cal.Name() != "As" || cal.Pkg == nil || cal.Pkg.Pkg.Path() != "errors" || len(call.Call.Args) != 2 {
+					continue
+				}
+				// the target: &local of type *T, T a struct of this package
+				var target *ssa.Alloc
+				for _, o := range originsThroughInterfaces(call.Call.Args[1]) {
+					if al, ok := o.(*ssa.Alloc); ok {
+						target = al
+					}
+				}
+				if target == nil {
+					continue
+				}
+				pt, ok := target.Type().(*types.Pointer).Elem().(*types.Pointer)
+				if !ok {
+					continue
+				}
+				nt := core.NamedOf(pt.Elem())
+				if nt == nil || nt.Obj().Pkg() == nil || core.RelPkg(nt.Obj().Pkg()) != "vm" {
+					continue
+				}
+				// is the error type built by a function that (transitively) runs this function again?
+				recursive := false
+				for _, g := range repoFns(p, "vm") {
+					builds := false
+					for _, b2 := range g.Blocks {
+						for _, in2 := range b2.Instrs {
+							if al, ok := in2.(*ssa.Alloc); ok && core.NamedOf(al.Type().(*types.Pointer).Elem()) == nt {
+								builds = true
+							}
+						}
+					}
+					if builds && cg.Nodes[g] != nil && cg.Nodes[fn] != nil && reachesFunc(cg, g, fn, 6) && reachesFunc(cg, fn, g, 6) {
+						recursive = true
+					}
+				}
+				if !recursive {
+					continue
+				}
+				n++
+				k++
+				// a field of the found error is compared with something
+				compared := false
+				if target.Referrers() != nil {
+					for _, r := range *target.Referrers() {
+						ld, ok := r.(*ssa.UnOp)
+						if !ok || ld.Referrers() == nil {
+							continue
+						}
+						for _, r2 := range *ld.Referrers() {
+							fa, ok := r2.(*ssa.FieldAddr)
+							if !ok || fa.Referrers() == nil {
+								continue
+							}
+							for _, r3 := range *fa.Referrers() {
+								if fl, ok := r3.(*ssa.UnOp); ok && fl.Referrers() != nil {
+									for _, r4 := range *fl.Referrers() {
+										if bo, ok := r4.(*ssa.BinOp); ok && (bo.Op == token.EQL || bo.Op == token.NEQ) {
+											compared = true
+										}
+									}
+								}
+							}
+						}
+					}
+				}
+				c.Check(compared, core.SSAName(fn)+"|errors.As:"+nt.Obj().Name()+"|names-the-module|"+sprintf("%d", k), p.Pos(call.Pos()),
+					fn.Name()+" looks for a "+nt.Obj().Name()+" in an error that may come from any depth of nested imports"+ife(compared, " and compares what the error is about with what it asked for", " and does not look at which module the error is about: `from a import b`, where a/b.risor exists and fails on `import missing`, swallows the failure and binds the attribute a.b instead"))
+			}
+		}
+	}
+	if n == 0 {
+		core.Undecidedf("the VM looks for no error type of its own with errors.As across nested imports")
+	}
+	c.Stat("errors_as_sites_across_recursion", n)
+}
+
+// ---------------------------------------------------------------------------
+// recursionOverGoTypesIsGuarded: the converter for a Go type is built from the
+// converters of the types it is made of (element, key, field).  A Go type can
+// be made of itself (type Tree []Tree, type M map[string]M); a function that
+// takes a reflect.Type and reaches itself again through the construction of
+// converters notes the types it is working on and refuses one that it meets
+// again, or the native stack is exhausted, which ends the process
+// (WithGlobal("x", Tree{})).
+func recursionOverGoTypesIsGuarded(c *core.Ctx) {
+	p := c.P
+	cg := p.CallGraph()
+	n := 0
+	isReflectType := func(t types.Type) bool { return core.IsNamed(t, "reflect", "Type") }
+	guardedFns := map[*ssa.Function]bool{}
+	var cands []*ssa.Function
+	for _, fn := range repoFns(p, "object") {
+		if fn.Parent() != nil || fn.Signature.Recv() != nil || fn.Signature.Params().Len() == 0 || !isReflectType(fn.Signature.Params().At(0).Type()) {
+			continue
+		}
+		if cg.Nodes[fn] == nil || !reachesFunc(cg, fn, fn, 5) {
+			continue
+		}
+		// only the function that looks the memo up first (the entry of the cycle): it reads a package-level map keyed by reflect.Type
+		readsMemo := false
+		guard := false
+		for _, b := range fn.Blocks {
+			for _, in := range b.Instrs {
+				lk, ok := in.(*ssa.Lookup)
+				if !ok || !lk.CommaOk && false {
+					continue
+				}
+				u, ok := lk.X.(*ssa.UnOp)
+				if !ok {
+					continue
+				}
+				g, ok := u.X.(*ssa.Global)
+				if !ok {
+					continue
+				}
+				mt, ok := g.Type().(*types.Pointer).Elem().Underlying().(*types.Map)
+				if !ok || !isReflectType(mt.Key()) {
+					continue
+				}
+				readsMemo = true
+				// a table of types in progress: also written in this function, and deleted from
+				wr, del := false, false
+				for _, b2 := range fn.Blocks {
+					for _, in2 := range b2.Instrs {
+						switch x := in2.(type) {
+						case *ssa.MapUpdate:
+							if u2, ok := x.Map.(*ssa.UnOp); ok && u2.X == ssa.Value(g) {
+								wr = true
+							}
+						}
+					}
+				}
+				for _, f2 := range append([]*ssa.Function{fn}, fn.AnonFuncs...) {
+					for _, b2 := range f2.Blocks {
+						for _, in2 := range b2.Instrs {
+							if ci, ok := in2.(ssa.CallInstruction); ok {
+								if bi, ok := ci.Common().Value.(*ssa.Builtin); ok && bi.Name() == "delete" {
+									for _, o := range core.Origins(ci.Common().Args[0]) {
+										if u3, ok := o.(*ssa.UnOp); ok && u3.X == ssa.Value(g) {
+											del = true
+										}
+									}
+								}
+							}
+						}
+					}
+				}
+				if wr && del {
+					guard = true
+				}
+			}
+		}
+		if !readsMemo {
+			continue
+		}
+		guardedFns[fn] = guard
+		cands = append(cands, fn)
+	}
+	for _, fn := range cands {
+		guard := guardedFns[fn]
+		if !guard {
+			// every way back to this function passes through one that keeps the table
+			seen := map[*ssa.Function]bool{}
+			back := false
+			var walk func(f *ssa.Function, d int)
+			walk = func(f *ssa.Function, d int) {
+				if d > 6 || back {
+					return
+				}
+				nd := cg.Nodes[f]
+				if nd == nil {
+					return
+				}
+				for _, e := range nd.Out {
+					if e.Callee == nil || e.Callee.Func == nil || !core.RepoFunc(e.Callee.Func) {
+						continue
+					}
+					g := e.Callee.Func
+					if g == fn {
+						back = true
+						return
+					}
+					if guardedFns[g] || seen[g] {
+						continue
+					}
+					seen[g] = true
+					walk(g, d+1)
+				}
+			}
+			walk(fn, 0)
+			if !back {
+				continue
+			}
+		}
+		n++
+		c.Check(guard, core.SSAName(fn)+"|types-in-progress-are-refused", p.Pos(fn.Pos()),
+			fn.Name()+" builds the converter of a Go type from the converters of its parts and can reach itself"+ife(guard, "; it keeps a table of the types it is working on (entered before, deleted after) and looks a type up there", "; nothing notes the types that are being worked on: a type that is made of itself (type Tree []Tree) recurses until the native stack is exhausted, which ends the process"))
+	}
+	if n == 0 {
+		core.Undecidedf("no function of package object recurses over reflect.Type behind a memo table")
+	}
+	c.Stat("type_recursions", n)
+}
+
+// ---------------------------------------------------------------------------
+// formatArgumentsHaveADefinedText: text that a script can see (a message, the
+// string form of an object) is made with Printf-style formatting in many
+// places.  What is handed to the format as an argument has a text of its own:
+// a script object goes through PrintableValue (or its Inspect/String), never
+// through Interface(), which for a channel, a function or a proxy is a Go
+// reference that %v prints as an address; and a value of a foreign interface
+// type (fs.DirEntry) is not printed with %v, which prints the struct behind
+// it, pointers included.  An address differs from run to run.
+func formatArgumentsHaveADefinedText(c *core.Ctx) {
+	p := c.P
+	op := p.Pkg("object")
+	objI := core.MustType(op, "Object")
+	n := 0
+	var fns []*ssa.Function
+	for _, fn := range repoFns(p) {
+		rel := core.RelPkg(fn.Pkg.Pkg)
+		if rel == "object" || rel == "builtins" || strings.HasPrefix(rel, "modules/") {
+			fns = append(fns, fn)
+		}
+	}
+	for _, fn := range fns {
+		k := 0
+		for _, b := range fn.Blocks {
+			for _, in := range b.Instrs {
+				ci, ok := in.(ssa.CallInstruction)
+				if !ok {
+					continue
+				}
+				cal := ci.Common().StaticCallee()
+				if cal == nil {
+					continue
+				}
+				isFmt := cal.Pkg != nil && cal.Pkg.Pkg.Path() == "fmt" && strings.HasSuffix(cal.Name(), "f")
+				if !isFmt && !(core.RepoFunc(cal) && printfLike(cal, 0)) {
+					continue
+				}
+				args := ci.Common().Args
+				if len(args) < 2 {
+					continue
+				}
+				format := ""
+				if k, ok := args[len(args)-2].(*ssa.Const); ok && k.Value != nil {
+					format = k.Value.ExactString()
+				}
+				// the elements of the variadic slice
+				var elems []ssa.Value
+				seen := map[ssa.Value]bool{}
+				var collect func(v ssa.Value)
+				collect = func(v ssa.Value) {
+					if seen[v] {
+						return
+					}
+					seen[v] = true
+					for _, o := range core.Origins(v) {
+						switch x := o.(type) {
+						case *ssa.Slice:
+							if al, ok := x.X.(*ssa.Alloc); ok && al.Referrers() != nil {
+								for _, r := range *al.Referrers() {
+									if ia, ok := r.(*ssa.IndexAddr); ok && ia.Referrers() != nil {
+										for _, r2 := range *ia.Referrers() {
+											if st, ok := r2.(*ssa.Store); ok {
+												elems = append(elems, st.Val)
+											}
+										}
+									}
+								}
+							} else {
+								collect(x.X)
+							}
+						case *ssa.Call:
+							if bi, ok := x.Call.Value.(*ssa.Builtin); ok && bi.Name() == "append" {
+								collect(x.Call.Args[0])
+								if len(x.Call.Args) > 1 {
+									collect(x.Call.Args[1])
+								}
+							}
+						}
+					}
+				}
+				collect(args[len(args)-1])
+				for _, e := range elems {
+					bad := ""
+					for _, o := range originsThroughInterfaces(e) {
+						if call, ok := o.(*ssa.Call); ok && call.Call.IsInvoke() && call.Call.Method.Name() == "Interface" && core.NamedOf(call.Call.Value.Type()) == objI {
+							bad = "the Interface() of a script object of any kind (" + p.Pos(call.Pos()) + "): for a channel, a function or a proxy that is a Go reference, which prints as an address"
+						}
+						if strings.Contains(format, "%v") || strings.Contains(format, "%+v") {
+							if it, ok := o.Type().Underlying().(*types.Interface); ok && it.NumMethods() > 0 {
+								nt := core.NamedOf(o.Type())
+								if nt != nil && nt.Obj().Pkg() != nil && nt != objI && nt.Obj().Name() != "error" && !hasMethod(it, "String") && !hasMethod(it, "Error") {
+									bad = "a value of the interface type " + shortType(o.Type()) + " under %v: fmt prints the struct behind it, pointers included"
+								}
+							}
+						}
+					}
+					if bad == "" {
+						continue
+					}
+					n++
+					k++
+					c.Check(false, core.SSAName(fn)+"|"+cal.Name()+"|argument-has-a-defined-text|"+sprintf("%d", k), p.Pos(in.Pos()),
+						fn.Name()+" formats text that a script can see and hands the format "+bad+"; the text differs from run to run (error(\"%v\", chan(1)) -> 0xc0000c80e0)")
+				}
+			}
+		}
+	}
+	c.Pass("repo|format-arguments-examined", "", sprintf("%d format arguments without a defined text", n))
+	c.Stat("format_arguments_without_a_defined_text", n)
+}
+
+func hasMethod(it *types.Interface, name string) bool {
+	for i := 0; i < it.NumMethods(); i++ {
+		if it.Method(i).Name() == name {
+			return true
+		}
+	}
+	return false
+}
+
+// ---------------------------------------------------------------------------
+// theCompilerDoesNotWriteIntoTheSyntaxTree: the tree that the parser built is
+// the compiler's input.  The compiler neither assigns to an element of a
+// slice that a node hands out (a block's statements are the block's own
+// slice) nor appends to one (append writes into the spare capacity of the
+// node's array).  A tree that compilation changes gives other code, and
+// another source text for its functions, when it is compiled again, and two
+// compilations of one tree on different goroutines race.
+func theCompilerDoesNotWriteIntoTheSyntaxTree(c *core.Ctx) {
+	p := c.P
+	fromNode := func(v ssa.Value) string {
+		for _, o := range core.Origins(v) {
+			if sl, ok := o.(*ssa.Slice); ok {
+				for _, o2 := range core.Origins(sl.X) {
+					o = o2
+				}
+			}
+			call, ok := o.(*ssa.Call)
+			if !ok {
+				continue
+			}
+			var recv types.Type
+			if call.Call.IsInvoke() {
+				recv = call.Call.Value.Type()
+			} else if cal := call.Call.StaticCallee(); cal != nil && cal.Signature.Recv() != nil {
+				recv = cal.Signature.Recv().Type()
+			}
+			if recv == nil {
+				continue
+			}
+			if nt := core.NamedOf(recv); nt != nil && nt.Obj().Pkg() != nil && core.RelPkg(nt.Obj().Pkg()) == "ast" {
+				return nt.Obj().Name() + "." + calleeName(&call.Call) + "()"
+			}
+		}
+		return ""
+	}
+	n, reads := 0, 0
+	for _, fn := range repoFns(p, "compiler") {
+		k := 0
+		for _, b := range fn.Blocks {
+			for _, in := range b.Instrs {
+				what, src := "", ""
+				switch x := in.(type) {
+				case *ssa.Store:
+					if ia, ok := x.Addr.(*ssa.IndexAddr); ok {
+						if s := fromNode(ia.X); s != "" {
+							what, src = "assigns to an element of", s
+						}
+					}
+				case *ssa.Call:
+					if bi, ok := x.Call.Value.(*ssa.Builtin); ok && bi.Name() == "append" && len(x.Call.Args) > 0 {
+						if s := fromNode(x.Call.Args[0]); s != "" {
+							what, src = "appends to", s
+						}
+					}
+				case *ssa.IndexAddr:
+					if fromNode(x.X) != "" {
+						reads++
+					}
+				}
+				if what == "" {
+					continue
+				}
+				n++
+				k++
+				c.Check(false, core.SSAName(fn)+"|"+src+"|not-written|"+sprintf("%d", k), p.Pos(in.Pos()),
+					fn.Name()+" "+what+" the slice that "+src+" hands out: that is the node's own slice, so compiling changes the tree (compiling one tree twice gives other bytecode and another function source; two goroutines compiling one tree race)")
+			}
+		}
+	}
+	if reads == 0 {
+		core.Undecidedf("the compiler indexes no slice handed out by a syntax node")
+	}
+	c.Pass("compiler|slices-of-the-syntax-tree", "", sprintf("%d elements of slices handed out by syntax nodes are addressed, %d written", reads, n))
+	c.Stat("tree_slice_element_accesses", reads)
+}
+
+// ---------------------------------------------------------------------------
+// scriptSizesAreTestedBeforeMake: a size that a script supplies (byte_slice(n),
+// buffer(n), chan(n), list(n)) reaches Go's make only after an ordering test:
+// make panics on a negative length, and the script gets "panic: runtime error:
+// makeslice: len out of range" instead of an error of its own.
+func scriptSizesAreTestedBeforeMake(c *core.Ctx) {
+	p := c.P
+	cg := p.CallGraph()
+	n := 0
+	fromScript := func(sz ssa.Value) bool {
+		for _, o := range core.Origins(sz) {
+			if cv, ok := o.(*ssa.Convert); ok {
+				if bt, ok := cv.X.Type().Underlying().(*types.Basic); ok && bt.Kind() == types.Int64 {
+					for _, o2 := range core.Origins(cv.X) {
+						if fieldOfObjectNumber(o2) || isAsHelperResult(o2) {
+							return true
+						}
+					}
+				}
+			}
+			if isAsHelperResult(o) || fieldOfObjectNumber(o) {
+				return true
+			}
+		}
+		return false
+	}
+	var tested func(fn *ssa.Function, sz ssa.Value, at ssa.Instruction) bool
+	tested = func(fn *ssa.Function, sz ssa.Value, at ssa.Instruction) bool {
+		if orderingGuards(fn, sz, at) {
+			return true
+		}
+		// a size that is one of several values (a default, or the script's number): each
+		// script-supplied one is tested on the way to the merge
+		if phi, ok := sz.(*ssa.Phi); ok {
+			all := true
+			for i, e := range phi.Edges {
+				if _, isK := e.(*ssa.Const); isK || !fromScript(e) {
+					continue
+				}
+				pred := phi.Block().Preds[i]
+				term := pred.Instrs[len(pred.Instrs)-1]
+				// the edge may leave the testing block itself (if v < 0 { return } at the end of a branch)
+				if iff, ok := term.(*ssa.If); ok {
+					if bo, ok := iff.Cond.(*ssa.BinOp); ok && (bo.Op == token.LSS || bo.Op == token.LEQ || bo.Op == token.GTR || bo.Op == token.GEQ) && (bo.X == e || bo.Y == e) {
+						continue
+					}
+				}
+				if !tested(fn, e, term) {
+					all = false
+				}
+			}
+			return all
+		}
+		for _, o := range core.Origins(sz) {
+			if cv, isCv := o.(*ssa.Convert); isCv && orderingGuards(fn, cv.X, at) {
+				return true
+			}
+		}
+		return false
+	}
+	for _, fn := range repoFns(p, "builtins", "object") {
+		k := 0
+		for _, b := range fn.Blocks {
+			for _, in := range b.Instrs {
+				var sizes []ssa.Value
+				what := ""
+				switch x := in.(type) {
+				case *ssa.MakeSlice:
+					sizes, what = []ssa.Value{x.Len}, "make of a slice"
+					if x.Cap != x.Len {
+						sizes = append(sizes, x.Cap)
+					}
+				case *ssa.MakeChan:
+					sizes, what = []ssa.Value{x.Size}, "make of a channel"
+				}
+				for _, sz := range sizes {
+					if sz == nil {
+						continue
+					}
+					if _, isK := sz.(*ssa.Const); isK {
+						continue
+					}
+					if fromScript(sz) {
+						n++
+						k++
+						ok := tested(fn, sz, in)
+						c.Check(ok, core.SSAName(fn)+"|size-tested-before-make|"+sprintf("%d", k), p.Pos(in.Pos()),
+							fn.Name()+" hands a number that a script supplied to a "+what+ife(ok, " after an ordering test", " without an ordering test in front of it: a negative size makes Go panic (\"makeslice: len out of range\", \"makechan: size out of range\") where the script is owed an error of its own"))
+						continue
+					}
+					// the size is a parameter of a constructor: the callers that hand it a script number
+					pa, isParam := sz.(*ssa.Parameter)
+					if !isParam || tested(fn, sz, in) {
+						continue
+					}
+					pi := -1
+					for i, q := range fn.Params {
+						if q == pa {
+							pi = i
+						}
+					}
+					nd := cg.Nodes[fn]
+					if pi < 0 || nd == nil {
+						continue
+					}
+					for _, e := range nd.In {
+						if e.Site == nil || e.Caller == nil || e.Caller.Func == nil || !core.RepoFunc(e.Caller.Func) {
+							continue
+						}
+						args := e.Site.Common().Args
+						if pi >= len(args) || !fromScript(args[pi]) {
+							continue
+						}
+						caller := e.Caller.Func
+						n++
+						k++
+						ok := tested(caller, args[pi], e.Site)
+						c.Check(ok, core.SSAName(caller)+"|"+fn.Name()+"|size-tested-before-make|"+sprintf("%d", k), p.Pos(e.Site.Pos()),
+							caller.Name()+" hands a number that a script supplied to "+fn.Name()+", which gives it to a "+what+ife(ok, "; an ordering test comes first", " untested, and no ordering test comes first: a negative size makes Go panic (\"makechan: size out of range\") where the script is owed an error of its own"))
+					}
+				}
+			}
+		}
+	}
+	if n < 3 {
+		core.Undecidedf("only %d makes are given a script-supplied size", n)
+	}
+	c.Stat("makes_with_a_script_size", n)
+}
+
+// fieldOfObjectNumber: the load of the value field of a script Int.
+func fieldOfObjectNumber(v ssa.Value) bool {
+	u, ok := v.(*ssa.UnOp)
+	if !ok || u.Op != token.MUL {
+		return false
+	}
+	fa, ok := u.X.(*ssa.FieldAddr)
+	if !ok {
+		return false
+	}
+	nt := core.NamedOf(fa.X.Type())
+	return nt != nil && nt.Obj().Name() == "Int" && nt.Obj().Pkg() != nil && core.RelPkg(nt.Obj().Pkg()) == "object"
+}
+
+// isAsHelperResult: the first result of object.AsInt (or Int.Value()).
+func isAsHelperResult(v ssa.Value) bool {
+	var call *ssa.Call
+	if ex, ok := v.(*ssa.Extract); ok && ex.Index == 0 {
+		call, _ = ex.Tuple.(*ssa.Call)
+	} else {
+		call, _ = v.(*ssa.Call)
+	}
+	if call == nil {
+		return false
+	}
+	cal := call.Call.StaticCallee()
+	if cal == nil || cal.Pkg == nil || core.RelPkg(cal.Pkg.Pkg) != "object" {
+		return false
+	}
+	if cal.Name() == "AsInt" {
+		return true
+	}
+	if cal.Name() == "Value" && cal.Signature.Recv() != nil {
+		if nt := core.NamedOf(cal.Signature.Recv().Type()); nt != nil && nt.Obj().Name() == "Int" {
+			return true
+		}
+	}
+	return false
+}
